@@ -192,8 +192,10 @@ def sql_parameterization_module(style: int, nparams: int, split: int, var: int) 
 def sql_parameterization_carried(style: int, carry: int, var: int, scope: int) -> bool:
     """The same family with the injected value travelling through an intermediate variable (`who = name` /
     `who = name + '!'`) that is READ AGAIN after the query (directly, or inside a comprehension): the rewritten program
-    prints the same rows and the same value of that variable - the variable is not emptied, removed or left unbound.
-    pre: 1 <= carry <= 2
+    prints the same rows and the same value of that variable - the variable is not emptied, removed or left unbound;
+    carry 3 / 4: an unrelated local read only by an inner function / an assignment to a global read by a sibling
+    function survive the clean-up pass that follows the rewrite.
+    pre: 1 <= carry <= 4
     post: _
     """
     from harness import sqlfam
